@@ -1,11 +1,14 @@
 """E2 — enumerated rule-body shapes, size profiles, and rendering to egglog programs.
 
-A body is written  "R(x,y) S(y,z) f(z)=w T(w,1)" :
-  Upper-case name  = relation over i64 columns           (table row: args.., fresh id, ts, subsume)
-  lower-case name  = function  i64.. -> i64 with :merge (min old new)   (FD: keys determine the value)
-  integer literal  = constant;  identifier = variable.
-Every named variable is carried into the head `(Out v1 .. vn)` (sorted by name), so that an Out row IS the
-substitution; this is what makes solver witnesses observable when replayed through the real binary.
+A body is written  "R(x,y) S(y,z) f(z)=w T(mkA(w),1) mkB(e,x)=e2" :
+  Upper-case name      = relation                          (table row: args.., fresh id, ts, subsume)
+  lower-case name      = function  i64.. -> i64 with :merge (min old new)   (FD: keys determine the value)
+  name starting `mk`   = constructor of the eq-sort E; may be nested inside arguments, or bound with `=var`
+  integer literal      = i64 constant;  identifier = variable; variables whose name starts with `e` have sort E.
+Nested constructor terms are flattened HERE (independently of egglog's own lowering) into fresh variables
+`_t<n>` plus constructor atoms; the program text handed to egglog keeps them nested.
+Unless a head is given (`-> x,y`), every named variable is carried into the head `(Out v1 .. vn)` (sorted by name),
+so that an Out row IS the substitution; this is what makes solver witnesses observable when replayed.
 """
 import re
 import zlib
@@ -13,12 +16,21 @@ import zlib
 BIG = 1000  # profile rows live in [BIG, ...); witness / sanity rows live in [0, D)
 
 
+def kind_of(name):
+    if name.startswith("mk"):
+        return "ctor"
+    return "fn" if name[0].islower() else "rel"
+
+
 class Atom:
+    """a FLAT atom: args / ret are entries ('v', name) | ('c', int)"""
+
     def __init__(self, name, args, ret=None):
         self.name = name
-        self.args = args  # list of ('v', name) | ('c', int)
-        self.ret = ret    # None for relations; entry for functions
-        self.is_func = name[0].islower()
+        self.args = args
+        self.ret = ret  # None for relations; entry for functions and constructors
+        self.kind = kind_of(name)
+        self.is_func = self.kind != "rel"  # has a value column that the body can bind
 
     def render(self):
         def r(e):
@@ -27,6 +39,12 @@ class Atom:
         if self.is_func:
             return "(= %s %s)" % (r(self.ret), inner)
         return inner
+
+
+class Body(list):
+    """flat atoms + the nested egglog text of the body + column types"""
+    text = ""
+    types = None  # name -> ([arg types], ret type | None), types 'i' | 'E'
 
 
 def split_head(s):
@@ -42,32 +60,112 @@ def head_vars(spec):
     return hv if hv is not None else body_vars(parse_body(body))
 
 
+def _tokenize(s):
+    return re.findall(r"[A-Za-z_][A-Za-z0-9_]*|-?\d+|[(),=]", s)
+
+
+def _parse_term(toks, i):
+    t = toks[i]
+    if re.fullmatch(r"-?\d+", t):
+        return ("c", int(t)), i + 1
+    if i + 1 < len(toks) and toks[i + 1] == "(":
+        args = []
+        i += 2
+        while toks[i] != ")":
+            a, i = _parse_term(toks, i)
+            args.append(a)
+            if toks[i] == ",":
+                i += 1
+        return ("app", t, args), i + 1
+    if not re.fullmatch(r"[A-Za-z_][A-Za-z0-9_]*", t):
+        raise ValueError("unexpected token %r" % t)
+    return ("v", t), i + 1
+
+
+def _term_text(t):
+    if t[0] == "c":
+        return str(t[1])
+    if t[0] == "v":
+        return t[1]
+    return "(%s%s)" % (t[1], "".join(" " + _term_text(a) for a in t[2]))
+
+
+def _ty(t):
+    if t[0] == "c":
+        return "i"
+    if t[0] == "v":
+        return "E" if t[1].startswith("e") or t[1].startswith("_t") else "i"
+    return "E" if kind_of(t[1]) == "ctor" else "i"
+
+
 def parse_body(s):
     s = split_head(s)[0]
-    atoms = []
-    for m in re.finditer(r"([A-Za-z][A-Za-z0-9_]*)\(([^)]*)\)(?:=([A-Za-z0-9_]+))?", s):
-        name, args, ret = m.group(1), m.group(2), m.group(3)
+    toks = _tokenize(s)
+    i = 0
+    out = Body()
+    texts = []
+    types = {}
+    fresh = [0]
 
-        def ent(x):
-            x = x.strip()
-            return ("c", int(x)) if re.fullmatch(r"-?\d+", x) else ("v", x)
-        a = [ent(x) for x in args.split(",") if x.strip()]
-        if name[0].islower():
-            if ret is None:
-                raise ValueError("function atom needs =ret: " + m.group(0))
-            atoms.append(Atom(name, a, ent(ret)))
+    def note(name, args, ret):
+        sig = ([_ty(a) for a in args], (None if ret is None else ("E" if kind_of(name) == "ctor" else "i")))
+        if name in types and types[name] != sig:
+            raise ValueError("inconsistent types for %s: %s vs %s" % (name, types[name], sig))
+        types[name] = sig
+
+    def flat(t):
+        """-> entry; nested applications become fresh variables + constructor atoms"""
+        if t[0] in ("c", "v"):
+            return t
+        if kind_of(t[1]) != "ctor":
+            raise ValueError("only constructors may be nested: " + t[1])
+        args = [flat(a) for a in t[2]]
+        fresh[0] += 1
+        v = ("v", "_t%d" % fresh[0])
+        note(t[1], t[2], v)
+        out.append(Atom(t[1], args, v))
+        return v
+
+    while i < len(toks):
+        t, i = _parse_term(toks, i)
+        if t[0] != "app":
+            raise ValueError("atom expected at %r" % (t,))
+        ret = None
+        if i < len(toks) and toks[i] == "=":
+            ret, i = _parse_term(toks, i + 1)
+        name = t[1]
+        k = kind_of(name)
+        if k == "rel":
+            if ret is not None:
+                raise ValueError("relation atom with =ret")
+            note(name, t[2], None)
+            args = [flat(a) for a in t[2]]
+            out.append(Atom(name, args))
+            texts.append(_term_text(t))
         else:
-            atoms.append(Atom(name, a))
-    return atoms
+            if ret is None:
+                raise ValueError("%s atom needs =ret: %s" % (k, name))
+            note(name, t[2], ret)
+            args = [flat(a) for a in t[2]]
+            out.append(Atom(name, args, ret))
+            texts.append("(= %s %s)" % (_term_text(ret), _term_text(t)))
+    out.text = " ".join(texts)
+    out.types = types
+    return out
 
 
 def body_vars(atoms):
+    """named variables (the fresh `_t<n>` ones introduced by flattening are not part of the substitution)"""
     vs = set()
     for a in atoms:
         for e in a.args + ([a.ret] if a.ret else []):
-            if e[0] == "v":
+            if e[0] == "v" and not e[1].startswith("_"):
                 vs.add(e[1])
     return sorted(vs)
+
+
+def var_type(v):
+    return "E" if v.startswith("e") or v.startswith("_t") else "i"
 
 
 def signature(atoms):
@@ -78,6 +176,19 @@ def signature(atoms):
             raise ValueError("inconsistent arity for " + a.name)
         sig[a.name] = len(a.args)
     return sig
+
+
+def val_text(v):
+    """a concrete value: int, or a constructor term ('mkA', (args..))"""
+    if isinstance(v, tuple):
+        return "(%s%s)" % (v[0], "".join(" " + val_text(x) for x in v[1]))
+    return str(v)
+
+
+def is_small(v):
+    if isinstance(v, tuple):
+        return all(is_small(x) for x in v[1])
+    return v < BIG
 
 
 # ------------------------------------------------------------------------------------------------
@@ -140,6 +251,17 @@ SHAPES = [
     ("p_chain4", "R(x,y) S(y,z) T(z,w) U(w,v) -> x,v", ""),
     ("p_two_guards", "R(a,a) S(b,b) T(y) -> y", ""),
     ("p_none", "R(a,b) S(b,c) -> ", "q"),
+    # eq-sort constructors: nested terms are flattened by egglog's own lowering (and, independently, here)
+    ("k_one", "mkA(x)=e", "q"),
+    ("k_nest1", "R(mkA(x),y)", "q"),
+    ("k_nest_join", "R(mkA(x),y) S(y,e) mkA(z)=e", "q"),
+    ("k_two_same", "mkA(x)=e mkA(y)=e", "q"),
+    ("k_dup_key", "mkA(x)=e mkA(x)=e2 R(e,e2)", "q"),
+    ("k_deep", "R(mkB(mkA(x),y),z)", "q"),
+    ("k_rewrite_like", "mkB(e1,x)=e mkB(e2,x)=e R(e1,e2)", ""),
+    ("k_chain", "mkA(x)=e1 mkB(e1,y)=e2 S(e2,z)", "q"),
+    ("k_assoc", "mkC(mkC(e1,e2),e3)=e", ""),
+    ("k_guard", "R(mkA(a),b) S(y) -> y", ""),
 ]
 
 # profile = rows seeded per table before planning: (default size, {name: size} overrides)
@@ -164,28 +286,55 @@ def lcg(seed):
         yield x
 
 
-def profile_rows(name, arity, is_func, n, seed):
-    """n distinct-key rows over the disjoint big range; joinable among themselves (small modulus)"""
+def ctor_pool(types, lo, n, depth=2):
+    """a deterministic pool of constructor terms of sort E over the integers lo..lo+n-1"""
+    ctors = sorted(nm for nm in types if kind_of(nm) == "ctor")
+    pool = []
+    level = []
+    for nm in ctors:
+        at, _ = types[nm]
+        if all(t == "i" for t in at):
+            for k in range(n):
+                level.append((nm, tuple(lo + ((k + j) % n) for j in range(len(at)))))
+    pool += level
+    for _ in range(depth - 1):
+        nxt = []
+        for nm in ctors:
+            at, _ = types[nm]
+            if any(t == "E" for t in at) and pool:
+                for k in range(n):
+                    args = tuple(pool[(k * 3 + j) % len(pool)] if t == "E" else lo + ((k + j) % n) for j, t in enumerate(at))
+                    nxt.append((nm, args))
+        pool += nxt
+    return pool
+
+
+def profile_rows(name, arity, is_func, n, seed, types=None):
+    """n distinct-key rows over the disjoint big range; joinable among themselves (small modulus).
+    -> list of (key tuple, value | None); E-typed positions hold constructor terms over big integers."""
     g = lcg(zlib.crc32(("%s/%d" % (name, seed)).encode()) & 0xFFFF)
+    at = types[name][0] if types and name in types else ["i"] * arity
+    epool = ctor_pool(types, BIG, 6) if types and any(t == "E" for t in at) else []
     rows = {}
     m = max(4, int(n ** 0.5) + 2) if arity > 1 else n + 1
     tries = 0
     while len(rows) < n and tries < 50 * n + 100:
         tries += 1
-        key = tuple(BIG + (next(g) % m) for _ in range(arity))
+        key = tuple((epool[next(g) % len(epool)] if (t == "E" and epool) else BIG + (next(g) % m)) for t in at)
         if key in rows:
             continue
         rows[key] = BIG + (next(g) % m)
     out = []
-    for k, v in rows.items():
-        out.append((k, v if is_func else None))
+    k = kind_of(name)
+    for key, v in rows.items():
+        out.append((key, v if k == "fn" else None))
     return out
 
 
-def fact_text(name, key, val, is_func):
-    ks = " ".join(str(k) for k in key)
-    if is_func:
-        return "(set (%s %s) %d)" % (name, ks, val)
+def fact_text(name, key, val, is_func=None):
+    ks = " ".join(val_text(k) for k in key)
+    if kind_of(name) == "fn":
+        return "(set (%s %s) %s)" % (name, ks, val_text(val))
     return "(%s %s)" % (name, ks)
 
 
@@ -198,15 +347,23 @@ def render_program(atoms, no_decomp, profile, steps, seed=0, rules=None, head=No
     rules: {ruleset: (out relation, rule options)}; default {"main": ("Out", "")}.  -> program text"""
     rules = rules or {"main": ("Out", "")}
     sig = signature(atoms)
+    types = atoms.types
     vs = head if head is not None else body_vars(atoms)
+    tyname = {"i": "i64", "E": "E"}
     lines = []
+    ctors = sorted(nm for nm in sig if kind_of(nm) == "ctor")
+    if ctors or any(var_type(v) == "E" for v in vs):
+        lines.append("(sort E)")
+        for nm in ctors:
+            lines.append("(constructor %s (%s) E)" % (nm, " ".join(tyname[t] for t in types[nm][0])))
     for name, ar in sorted(sig.items()):
-        if name[0].islower():
-            lines.append("(function %s (%s) i64 :merge (min old new))" % (name, " ".join(["i64"] * ar)))
-        else:
-            lines.append("(relation %s (%s))" % (name, " ".join(["i64"] * ar)))
+        k = kind_of(name)
+        if k == "fn":
+            lines.append("(function %s (%s) i64 :merge (min old new))" % (name, " ".join(tyname[t] for t in types[name][0])))
+        elif k == "rel":
+            lines.append("(relation %s (%s))" % (name, " ".join(tyname[t] for t in types[name][0])))
     for rs, (outrel, _) in sorted(rules.items()):
-        lines.append("(relation %s (%s))" % (outrel, " ".join(["i64"] * len(vs))))
+        lines.append("(relation %s (%s))" % (outrel, " ".join(tyname[var_type(v)] for v in vs)))
     lines.append("(relation Trig (i64))")
     lines.append("(ruleset seed)")
     for rs in sorted(rules):
@@ -215,15 +372,14 @@ def render_program(atoms, no_decomp, profile, steps, seed=0, rules=None, head=No
     seeds = []
     for name, ar in sorted(sig.items()):
         n = over.get(name, default)
-        for key, val in profile_rows(name, ar, name[0].islower(), n, seed):
-            seeds.append(fact_text(name, key, val, name[0].islower()))
+        for key, val in profile_rows(name, ar, kind_of(name) != "rel", n, seed, types):
+            seeds.append(fact_text(name, key, val))
     if seeds:
         lines.append("(rule () (%s) :ruleset seed)" % " ".join(seeds))
         lines.append("(run seed 1)")
-    body = " ".join(a.render() for a in atoms)
     for rs, (outrel, ropts) in sorted(rules.items()):
         opts = ":ruleset %s" % rs + (" :no-decomp" if no_decomp else "") + ropts
-        lines.append("(rule (%s) ((%s %s)) %s)" % (body, outrel, " ".join(vs), opts))
+        lines.append("(rule (%s) ((%s %s)) %s)" % (atoms.text, outrel, " ".join(vs), opts))
     for k, st in enumerate(steps):
         if st.get("aux"):
             lines.append("(rule ((Trig %d)) (%s) :ruleset %s)" % (k, " ".join(st["aux"]), st["ruleset"]))
